@@ -23,7 +23,9 @@ W, R, B = 1, 2, 3           # clock masks: bit0 = write clock, bit1 = read clock
 MASK_NAME = {W: "W", R: "R", B: "WR"}
 SYNC_STAGES = 2             # documented default of FFSynchronizer (lib.cdc): "stages ... between input and output"
 LIVENESS_LIMIT = 2 * SYNC_STAGES + 3
+TIME_CAP = 1500             # s per configuration; hitting it is reported as capped / exhaustive: false
 INPUT_NAMES = ("w_en", "w_data", "r_en")
+DIVERGED = "diverged"       # queue-model component of the sink reached through a failing transition
 
 
 # ---------------------------------------------------------------- reference: documented depth rules (ints only)
@@ -247,6 +249,8 @@ class AFifoSpec:
     def step(self, sysm, m, a):
         mask, w_en, w_data, r_en = a
         entries, seen_r_rdy, seen_cross = m
+        if entries == DIVERGED:
+            return m, [], ()
         ctx = sysm.ctx
         sysm.set_inputs(sysm.pack_inputs([w_en, w_data, r_en]))
         o = ctx.get(self.obs_cat)
@@ -316,6 +320,10 @@ class AFifoSpec:
                     if d & (d - 1):
                         errs.append(f"cdc: {s.name} sampled by the other clock domain changed {bin(d).count('1')} bits in one event")
                 off += wd
+        if errs:
+            # model and implementation have diverged: report, and make the successor a sink so that the (now meaningless,
+            # possibly unbounded) product beyond the first failure of a path is not explored
+            return (DIVERGED, 1, 0), errs, (fl,)
         return (new, r_rdy2, cross2), errs, (fl,)
 
 
@@ -359,7 +367,7 @@ def liveness(spec, res):
         for mk in (W, R, B):
             succ[mk][i] = tuple(per[mk].items())
             nedges += len(per[mk])
-    bad = {i for i, k in enumerate(keys) if k[1][0] and not k[1][1]}
+    bad = {i for i, k in enumerate(keys) if k[1][0] and not k[1][1] and k[1][0] != DIVERGED}
     allst = set(range(len(keys)))
 
     def post(X, masks):
@@ -437,7 +445,7 @@ def run_config(task):
     except Exception as e:
         out["elab"] = type(e).__name__
         return out
-    res = explore(spec, procs=procs, replay_n=replay_n, cap_states=2_000_000, keep_edges=want_live)
+    res = explore(spec, procs=procs, replay_n=replay_n, cap_states=2_000_000, keep_edges=want_live, time_cap=TIME_CAP)
     out.update(states=res.states, transitions=res.transitions, depth=res.max_depth, flags=decode_flags(res.flags),
                capped=res.capped, validated=res.traces_validated, ncross=len(spec.cross),
                ncross_all=len(spec.cross_all), nregs=spec.nregs, nactions=len(spec.actions),
